@@ -27,8 +27,16 @@ NOT_APPLICABLE = {}
 NOTES = ("All checks are bounded-exhaustive (model checking family): they enumerate schedules, histories, fault "
          "positions or inputs completely inside the bound stated in the evidence file; nothing in a deciding path samples.")
 ENGINES = [
+    {"name": "E1 detsched", "path": "/verif/engine/vsched + /verif/engine/instr", "serves_properties": ["C01", "C02", "C10", "C14"],
+     "kind_free_text": "AST instrumenter (go -overlay) + cooperative deterministic scheduler + stateless DFS with iterative deviation bounding over the real goroutines"},
+    {"name": "E2 xstate", "path": "/verif/harness/server/zzverif_xstate_test.go", "serves_properties": ["C03", "C04", "C06", "C07", "C08", "C09", "C11", "C13", "C15"],
+     "kind_free_text": "explicit-state BFS over request histories executed on the real server (replay from a fresh instance), canonical state keys with a key-soundness check, optional single-fault enumeration per transition"},
+    {"name": "E3 memdb", "path": "/verif/engine/memdb", "serves_properties": ["C01", "C08", "C18"],
+     "kind_free_text": "in-memory reference store adapter (store contract transcribed from the MySQL adapter) with call journal, fault injection and crash images"},
     {"name": "E4 enum", "path": "/verif/harness", "serves_properties": ["C04", "C05", "C12", "C17", "C19", "C20"],
      "kind_free_text": "bounded-exhaustive input enumeration of the real functions against reference implementations"},
+    {"name": "E5 sqlfake", "path": "/verif/harness/server/db/mysql", "serves_properties": ["C18"],
+     "kind_free_text": "fake database/sql driver under the real MySQL adapter; every statement position x fault kind"},
 ]
 
 
@@ -117,7 +125,7 @@ reg(Check("C18", "fault_enumeration",
           text="Complete enumeration of single-statement faults for every multi-statement adapter operation.",
           note="trusted: database/sql's own transaction bookkeeping; fake driver in the harness",
           technique="exhaustive fault-point enumeration over the real code with an injected driver",
-          engine="E5 sqlfake", claimed=False,
+          engine="E5 sqlfake", claimed=True,
           parts=[Part("sqlfaults", "server/db/mysql", "^TestVerifC18", tags="mysql", gomaxprocs=4)]))
 
 SRV = "server"
@@ -134,7 +142,7 @@ reg(Check("C01", "model_checking",
                "exhaustive crash-point / single-fault enumeration on the real write path over the reference store.",
           note="trusted: verif-instr rewrite + vsched shim (self-tested), memdb adapter; cluster proxy path not covered",
           technique="stateless model checking of the implementation (controlled scheduler, deviation bounding) + crash/fault point enumeration",
-          engine="E1 detsched + E3 memdb", claimed=False,
+          engine="E1 detsched + E3 memdb", claimed=True,
           parts=[Part("schedules", SRV, "^TestVerifC01Schedules$", instr=True, shards=(8, 16), deadline=(240, 1500)),
                  Part("reload", SRV, "^TestVerifC01Reload$", instr=True, shards=(4, 8), deadline=(240, 1500)),
                  Part("crash", SRV, "^TestVerifC01Crash$", instr=True),
@@ -151,7 +159,7 @@ reg(Check("C06", "model_checking",
           ["canonical (zero-deviation) schedule only", "4 users, fixed mode menu, subscriber limit 3"],
           text=XS_NOTE, note="trusted: memdb store contract, instrumenter/scheduler; deeper histories beyond the bound are not covered",
           technique="explicit-state model checking over the real handlers (BFS by replay, invariant + step oracle)",
-          engine="E2 xstate", claimed=False,
+          engine="E2 xstate", claimed=True,
           parts=[Part("acl", SRV, "^TestVerifC06Acl$", instr=True, gomaxprocs=16, deadline=(300, 2400)),
                  Part("acl-fault", SRV, "^TestVerifC06AclFault$", instr=True, gomaxprocs=16, deadline=(300, 2400))]))
 reg(Check("C07", "model_checking",
@@ -160,7 +168,7 @@ reg(Check("C07", "model_checking",
           ["canonical schedule only", "4 users, fixed mode menu, subscriber limit 3; P2P/me/fnd/sys rules are decided by the p2p model part"],
           text=XS_NOTE, note="trusted: memdb store contract, instrumenter/scheduler",
           technique="explicit-state model checking over the real handlers (BFS by replay, step oracle)",
-          engine="E2 xstate", claimed=False,
+          engine="E2 xstate", claimed=True,
           parts=[Part("acl", SRV, "^TestVerifC07Acl$", instr=True, gomaxprocs=16, deadline=(300, 2400))]))
 
 reg(Check("C19", "exploration",
@@ -172,7 +180,7 @@ reg(Check("C19", "exploration",
            "whose own rules are enumerated separately", "tag histories through a live fnd/grp topic are covered by the C19 'fnd' part when present"],
           text="Bounded-exhaustive enumeration of query strings and tag lists against reference implementations.",
           note="strings longer than the bound are not enumerated",
-          technique="bounded-exhaustive enumeration against a reference model", engine="E4 enum", claimed=False,
+          technique="bounded-exhaustive enumeration against a reference model", engine="E4 enum", claimed=True,
           parts=[Part("query", SRV, "^TestVerifC19Query$", instr=True, shards=(10, 10), deadline=(300, 2400)),
                  Part("rewrite", SRV, "^TestVerifC19RewriteTag$", instr=True, shards=(10, 10)),
                  Part("tags", SRV, "^TestVerifC19Tags$", instr=True)]))
